@@ -143,7 +143,8 @@ def run(tier):
     ck.log("graphs: %d modules %s, %d problems" % (len(cases), dict(stats), mism))
     # duplicate names (E421 functions, E423 constants, E425 structures, E424 parameters, E426 members):
     # random declarations over a small pool of names, in two orders; the set of codes is decided by the
-    # name spaces alone (functions / constants / structures; parameters and members also clash with constants)
+    # name spaces alone (functions / constants / structures; parameters also clash with constants, members only
+    # with the other members of their structure)
     drng = random.Random(ck.seed + 21)
     dcases, dexp = [], {}
     for i in range(400 if tier == "quick" else 15000):
@@ -164,7 +165,7 @@ def run(tier):
         if len(set(structs)) < len(structs): codes.add("425")
         for kind, nm, xs in decls:
             if kind == "fn" and (len(set(xs)) < len(xs) or set(xs) & set(consts)): codes.add("424")
-            if kind == "struct" and (len(set(xs)) < len(xs) or set(xs) & set(consts)): codes.add("426")
+            if kind == "struct" and len(set(xs)) < len(xs): codes.add("426")      # members only clash with members of the same structure (D71)
         def render_d(d):
             kind, nm, xs = d
             if kind == "fn": return "fn %s(%s)\n{\n}\n" % (nm, ", ".join("%s: i32" % x for x in xs))
